@@ -9,7 +9,7 @@ from .. import core, runner
 from . import c03
 
 THEOREMS = ["ZI.AttrsW.C15_agree", "ZI.AttrsW.C15_present", "ZI.AttrsW.C15_pinned_violates", "ZI.AttrsW.C15_get", "ZI.AttrsW.get_memoOk",
-            "ZI.AttrsW.setBases_memoOk", "ZI.AttrsW.C15_settag_listed", "ZI.AttrsW.C15_settag_resolves", "ZI.AttrsW.C15_settag_other", "ZI.AttrsW.C15_settag_unrelated", "ZI.AttrsW.setTag_get", "ZI.AttrsW.C15_tags", "ZI.AttrsW.C15_tag_first", "ZI.AttrsW.C15_invariants", "ZI.AttrsW.C15_follow", "ZI.AttrsW.C15_get_history", "ZI.AttrsW.winv_run", "ZI.AttrsW.winv_step", "ZI.AttrsW.step_untouched", "ZI.AttrsW.sroFresh_congr",
+            "ZI.AttrsW.setBases_memoOk", "ZI.AttrsW.C15_settag_history", "ZI.AttrsW.C15_settag_listed", "ZI.AttrsW.C15_settag_resolves", "ZI.AttrsW.C15_settag_other", "ZI.AttrsW.C15_settag_unrelated", "ZI.AttrsW.setTag_get", "ZI.AttrsW.C15_tags", "ZI.AttrsW.C15_tag_first", "ZI.AttrsW.C15_invariants", "ZI.AttrsW.C15_follow", "ZI.AttrsW.C15_get_history", "ZI.AttrsW.winv_run", "ZI.AttrsW.winv_step", "ZI.AttrsW.step_untouched", "ZI.AttrsW.sroFresh_congr",
             "ZI.Attrs.nad_eq_get", "ZI.Upd.get?_fold_reverse"]
 NAMES = ["a", "b", "c", "d"]
 TAGS = ["p", "q", "r"]
